@@ -74,6 +74,11 @@ impl RecordWriter {
     }
 
     fn finish(&self, w: &mut impl Write) -> std::io::Result<()> {
+        #[cfg(feature = "verif")]
+        if let Some(n) = crate::verif::db_fault(&self.0) {
+            w.write_all(&self.0[..n])?;
+            crate::verif::die();
+        }
         w.write_all(&self.0)
     }
 }
@@ -97,6 +102,15 @@ impl Writer {
     }
 
     fn write_signature(&mut self) -> std::io::Result<()> {
+        #[cfg(feature = "verif")]
+        {
+            let mut sig = "n2db".as_bytes().to_vec();
+            sig.extend_from_slice(&u32::to_le_bytes(VERSION));
+            if let Some(n) = crate::verif::db_fault(&sig) {
+                self.w.write_all(&sig[..n])?;
+                crate::verif::die();
+            }
+        }
         self.w.write_all("n2db".as_bytes())?;
         self.w.write_all(&u32::to_le_bytes(VERSION))
     }
@@ -147,6 +161,8 @@ impl Writer {
         }
 
         w.write_u64(hash.0);
+        #[cfg(feature = "verif")]
+        crate::verif::note_db_write(graph, id, hash.0);
         w.finish(&mut self.w)
     }
 }
@@ -210,8 +226,12 @@ impl<'a> Reader<'a> {
 
         let mut unique_bid = None;
         let mut obsolete = false;
+        #[cfg(feature = "verif")]
+        let mut verif_outs = Vec::new();
         for _ in 0..len {
             let fileid = self.read_id()?;
+            #[cfg(feature = "verif")]
+            verif_outs.extend(self.ids.fileids.lookup(fileid).copied());
             if obsolete {
                 // Even though we know we don't want this record, we must
                 // keep reading to parse through it.
@@ -246,6 +266,8 @@ impl<'a> Reader<'a> {
 
         let hash = BuildHash(self.read_u64()?);
 
+        #[cfg(feature = "verif")]
+        crate::verif::note_db_read(self.graph, unique_bid, &verif_outs, &deps, hash.0);
         // unique_bid is set here if this record is valid.
         if let Some(id) = unique_bid {
             // Common case: only one associated build.
